@@ -138,6 +138,8 @@ impl XRefTable {
                 XRef::Free { next_obj_nr, gen_nr } => (0, next_obj_nr, gen_nr),
                 XRef::Raw { pos, gen_nr } => (1, pos as u64, gen_nr),
                 XRef::Stream { stream_id, index } => (2, stream_id, index as u64),
+                // a number that no section of the file defines: written as a free entry (ISO 32000-1 7.5.4, 7.5.8.4)
+                XRef::Invalid => (0, 0, 0),
                 x => bail!("invalid xref entry: {:?}", x)
             };
             data.push(t);
